@@ -160,6 +160,11 @@ def run_group(g, acc):
                             acc.check_time()
                             run = dict(base, D=D, cplx=cplx, method=method, eigs=oe, svd=osvd, pre=pre, Hform=Hform)
                             dmrg_run(run, loc, H if Hform == 'single' else Hsum, Hd, idx, w, acc, Dmax)
+                            if D == 2 and Hform == 'single' and not pre and oe is None:
+                                # a canonical input with a non-unit factor (e.g. 2*psi) must come back normalized as well
+                                dmrg_run(dict(run, prep='canonical_factor2'), loc, H, Hd, idx, w, acc, Dmax)
+            if n == chs[0]:
+                stopping_runs(base, loc, H, Hd, idx, acc, Dmax)
             # projection: ground state, then first excited state
             project_runs(base, loc, H, Hd, idx, w, U, acc, cplxH)
 
@@ -173,6 +178,9 @@ def dmrg_run(run, loc, H, Hd, idx, w, acc, Dmax):
     psi = start_state(loc, N, n, run['D'], run['cplx'], acc.seed, 'init')
     if psi is None:
         return
+    if run.get('prep') == 'canonical_factor2':
+        psi.canonize_(to='first')
+        psi.factor = 2 * psi.factor
     leg0 = psi.virtual_leg('first')
     method = run['method']
     meth = yastn.Method('2site') if method == 'switch' else method
@@ -237,6 +245,62 @@ def dmrg_run(run, loc, H, Hd, idx, w, acc, Dmax):
             return
         if acc.evaluations % 997 == 0:
             acc.sample(dict(run, sweep=sweep))
+
+
+STOP_TOLS = [(1e-6, None), (None, 1e-5), (1e-6, 1e-8), (1e-11, 1e-3)]
+
+
+def stopping_runs(base, loc, H, Hd, idx, acc, Dmax):
+    """stopping rule: a run that ends before max_sweeps satisfies EVERY tolerance it was given, and it ends at the first
+    sweep at which they are all met (the per-sweep sequence is read from an iterator run that cannot stop early)"""
+    N, n = base['N'], tuple(base['n'])
+    if len(idx) < 3:
+        return
+    K = 8
+    for method in ('1site', '2site'):
+        common = dict(method=method, opts_svd={'tol': 1e-14})
+        psi = start_state(loc, N, n, max(4, Dmax), False, acc.seed, 'stop')
+        if psi is None:
+            return
+        st, seq = TC.call(lambda: [(o.sweeps, o.denergy, o.max_dSchmidt) for o in
+                                   mps.dmrg_(psi, H, max_sweeps=K, iterator=True, energy_tol=1e-300, Schmidt_tol=1e-300, **common)])
+        if st == 'ok' and 0 < len(seq) < K and seq[-1][1] == 0 and seq[-1][2] == 0:
+            seq = seq + [(k, 0.0, 0.0) for k in range(len(seq) + 1, K + 1)]      # exact fixed point: nothing changes any more
+        if st != 'ok' or len(seq) != K:
+            acc.fail(dict(base, kind='stopping', method=method), f"reference iterator run: {st}: {seq if st != 'ok' else seq[-3:]}")
+            continue
+        for et, stl in STOP_TOLS:
+            acc.check_time()
+            run = dict(base, kind='stopping', method=method, energy_tol=et, Schmidt_tol=stl)
+            psi = start_state(loc, N, n, max(4, Dmax), False, acc.seed, 'stop')
+            kw = dict(common, max_sweeps=K)
+            if et is not None:
+                kw['energy_tol'] = et
+            if stl is not None:
+                kw['Schmidt_tol'] = stl
+            st, out = TC.call(lambda: mps.dmrg_(psi, H, **kw))
+            msg = None
+            if st != 'ok':
+                msg = f"dmrg_ with tolerances: {st}: {out}"
+            else:
+                met = [k for k, (sw, dE, dS) in enumerate(seq, start=1)
+                       if (et is None or dE < et) and (stl is None or (dS is not None and dS < stl))]
+                # sweeps whose measures lie within round-off of a tolerance are not decisive
+                near = any((et is not None and abs(dE - et) < 1e-3 * et) or (stl is not None and dS is not None and abs(dS - stl) < 1e-3 * stl)
+                           for (sw, dE, dS) in seq)
+                expect = met[0] if met else K
+                if out.sweeps < K and ((et is not None and not out.denergy < et) or (stl is not None and not out.max_dSchmidt < stl)):
+                    msg = (f"dmrg_ stopped after {out.sweeps} < max_sweeps={K} sweeps with denergy={out.denergy}, max_dSchmidt={out.max_dSchmidt} "
+                           f"although energy_tol={et}, Schmidt_tol={stl}")
+                elif not near and out.sweeps != expect:
+                    msg = (f"dmrg_(energy_tol={et}, Schmidt_tol={stl}) ran {out.sweeps} sweeps; the per-sweep measures "
+                           f"{[(round(float(a), 14), None if b is None else round(float(b), 14)) for _, a, b in seq[:expect + 1]]} meet all tolerances first at sweep {expect}")
+            acc.ev(repr(run), msg is None and st == 'ok' and out.sweeps < K, ('stopping', method, et is None, stl is None, msg is None))
+            acc.cnt['stopping_runs'] += 1
+            if st == 'ok' and out.sweeps < K:
+                acc.cnt['stopping_runs_converged'] += 1
+            if msg:
+                acc.fail(run, msg)
 
 
 def project_runs(base, loc, H, Hd, idx, w, U, acc, cplxH):
